@@ -52,7 +52,8 @@ def slow_reply(name, nq, dgram, dial_timeout_ms=300, factor=3):
     st = [S("Call", c=c) for c in range(nq)]
     st += [S("WaitDial", k=1), S("Sleep", n=20), S("DialOk", k=1)]
     st += [S("WriteRet", c=c) for c in range(nq)]
-    st += [S("Sleep", n=dial_timeout_ms * factor)]
+    # UDP: stay well below the 1 s resend tick of conn_traditional (a resend would be a second ConnWrite)
+    st += [S("Sleep", n=(2 * dial_timeout_ms + 50) if dgram else dial_timeout_ms * factor)]
     st += [S("Finish", c=c) for c in range(nq)]
     # a query on the now established connection, same delay
     st += [S("Call", c=nq), S("WriteRet", c=nq), S("Sleep", n=dial_timeout_ms + 100), S("Finish", c=nq)]
@@ -185,7 +186,7 @@ def run_c02(ctx, rng):
     ctx.assumptions += [
         "pipeline part: LazyPipe.tla has no failure step for a query that was written on a healthy connection: without "
         "fault, cancellation or caller deadline the only way out is its reply (however late; real-time waits of "
-        "3 x DialTimeout = 0.9 s are used, DialTimeout = 300 ms)",
+        "3..6 x DialTimeout on TCP framing, 2 x DialTimeout + 50 ms on UDP — below the 1 s resend tick; DialTimeout = 300 ms)",
     ]
     scripts = []
     for k in range(4 if T else 1):
